@@ -23,7 +23,16 @@ SORT = "tauri_typegen::analysis::dependency_graph::TypeDependencyGraph::topologi
 KAHN = "tauri_typegen::build::dependency_resolver::DependencyResolver::resolve_build_order"
 
 
+ROLES = {}   # function id -> {variable name: role}; roles are assigned by use, not by spelling (see assign_roles)
+
+
 def recv_name(f, c, i=0):
+    """role (or, failing that, name) of the variable/parameter behind argument i"""
+    n = _raw_name(f, c, i)
+    return ROLES.get(f.id, {}).get(n, n)
+
+
+def _raw_name(f, c, i=0):
     """name of the variable/parameter behind argument i (through refs/derefs/reborrows)"""
     pl = op_place(c.args[i]) if i < len(c.args) else None
     seen = set()
@@ -64,12 +73,46 @@ def guard_calls(f, b):
     return out
 
 
+def assign_roles(P, v, s):
+    """`visiting` = the set inserted into before the recursion, `visited` = the other set, `sorted` = the vector pushed to; the caller's
+    variables get the role of the parameter they are passed for.  A rename of these variables therefore changes nothing."""
+    ROLES.clear()
+    if v is None:
+        return
+    rec = [c for c in v.calls if v.id in P.targets(c)]
+    r = {}
+    for c in v.calls:
+        sp = short_path(c.path)
+        if sp == "HashSet::insert" and c.args:
+            n = _raw_name(v, c)
+            if any(v.dominates(c.bb, x.bb) for x in rec):
+                r[n] = "visiting"
+            else:
+                r.setdefault(n, "visited")
+        elif sp == "Vec::push" and c.args:
+            r[_raw_name(v, c)] = "sorted"
+    ROLES[v.id] = r
+    pidx = {}
+    for i in range(1, v.arg_count + 1):
+        if v.lname(i) in r:
+            pidx[i] = r[v.lname(i)]
+    if s is not None:
+        rs = {}
+        for c in s.calls:
+            if v.id in P.targets(c):
+                for j in range(len(c.args)):
+                    if (j + 1) in pidx:
+                        rs[_raw_name(s, c, j)] = pidx[j + 1]
+        ROLES[s.id] = rs
+
+
 def check(ctx):
     P = ctx.P
     rules = []
     v = P.fns.get(VISIT)
     s = P.fns.get(SORT)
     k = P.fns.get(KAHN)
+    assign_roles(P, v, s)
 
     r1 = Rule("C20-D1-recursion-guard", "D1",
               "every recursive call of topological_visit is dominated by visiting.contains=false, visited.contains=false and by visiting.insert(node)",
